@@ -23,6 +23,11 @@
 
     theorem run_refined_by_eval …   -- the converse direction (roles of `eval` and `run` exchanged)
 
+    theorem tco_invisible …         -- stage C: `run` with Throw/CatchOne/CatchAll executed by the trampoline
+                                    -- equals `run` with every call inline.  Proved so far: the compile-time half
+                                    -- (`compile_tr_subset`, `throw_only_towards_enclosing_def`,
+                                    -- `no_throw_outside_tail_position`); the Machine executes all call types inline.
+
   Round 2: `compile_tr_subset` and `compile_appends` are now proved for EVERY term (no fragment
   hypothesis); their `_partial` forms are kept as corollaries.
 -/
@@ -195,6 +200,48 @@ theorem compile_tr_subset_partial (t : Term) (_h : inFragment true t = true) (cx
     ∀ x ∈ (term cx loc tr t st).2.1, x ∈ tr :=
   compile_tr_subset t cx loc tr st
 
+/-! ## stage C, compile-time half -/
+
+/-- compile-time half of stage C: a call is compiled to `Throw` only towards a definition whose
+body is being compiled in tail position (`id ∈ tr`, and `tr` gets `id` only in `Compiler::def`),
+and it reports exactly that id; so every thrown tail call has an enclosing `def_run` of the
+same definition to catch it (`CatchOne` for direct recursion from a sibling call, `CatchAll` otherwise). -/
+theorem throw_only_towards_enclosing_def {loc : Locals} {name : String} {ids : List TermId} {tr tr' : Tr} {id : TermId}
+    {args : List (ArgK TermId)} {skip : Nat}
+    (h : loc.call name ids tr = some (.callDef id args skip .throw, tr')) : id ∈ tr ∧ tr' = [id] := by
+  unfold Locals.call at h
+  split at h
+  · cases h
+  · cases h
+  · simp only at h
+    split at h
+    · simp only [Option.some.injEq, Prod.mk.injEq, CTerm.callDef.injEq] at h
+      obtain ⟨⟨-, -, -, h4⟩, -⟩ := h
+      split at h4 <;> cases h4
+    · simp only [Option.some.injEq, Prod.mk.injEq, CTerm.callDef.injEq] at h
+      obtain ⟨⟨-, -, -, h4⟩, -⟩ := h
+      cases h4
+  · split at h
+    · rename_i hc
+      simp only [Option.some.injEq, Prod.mk.injEq, CTerm.callDef.injEq] at h
+      obtain ⟨⟨rfl, -, -, -⟩, rfl⟩ := h
+      exact ⟨by simpa using hc, rfl⟩
+    · simp only [Option.some.injEq, Prod.mk.injEq, CTerm.callDef.injEq] at h
+      obtain ⟨⟨-, -, -, h4⟩, -⟩ := h
+      cases h4
+
+/-- calls from the main program or from a non-tail position (`tr = []`) never throw -/
+theorem no_throw_outside_tail_position {loc : Locals} {name : String} {ids : List TermId} {tr' : Tr} {id : TermId}
+    {args : List (ArgK TermId)} {skip : Nat} {ct : CallType}
+    (h : loc.call name ids [] = some (.callDef id args skip ct, tr')) : ct ≠ .throw ∧ tr' = [] := by
+  constructor
+  · intro hct
+    subst hct
+    exact absurd (throw_only_towards_enclosing_def h).1 (by simp)
+  · have := call_tr_subset h
+    cases tr' with
+    | nil => rfl
+    | cons x _ => exact absurd (this x (by simp)) (by simp)
 /-! ## corollaries -/
 
 /-- `f op g` behaves as `f as $x | g as $y | $x op $y`: `f` is the outer loop, `g` the inner one,
